@@ -61,8 +61,54 @@ def fmt(v):
     return str(v)
 
 
+class SInt(int):
+    """a signed machine integer (isize): subtraction may go below zero"""
+
+    def __repr__(self):
+        return "%di" % int(self)
+
+
 class Interval(dict):
     pass
+
+
+class EnumVal:
+    """a value of some enum: variant name + positional payload"""
+
+    def __init__(self, name, args=()):
+        self.name = name
+        self.args = tuple(args)
+
+    def __eq__(self, o):
+        return isinstance(o, EnumVal) and self.name == o.name and self.args == o.args
+
+    def __hash__(self):
+        return hash((self.name, self.args))
+
+    def __repr__(self):
+        return "%s(%s)" % (self.name, ",".join(fmt(a) for a in self.args)) if self.args else self.name
+
+
+class StructVal(dict):
+    """a struct value: field dict + type name"""
+
+    def __init__(self, name, fields):
+        dict.__init__(self, fields)
+        self.tyname = name
+
+    def __repr__(self):
+        return "%s{%s}" % (self.tyname, ",".join("%s:%s" % (k, fmt(v)) for k, v in sorted(self.items())))
+
+    def __hash__(self):
+        return hash((self.tyname, tuple(sorted((k, repr(v)) for k, v in self.items()))))
+
+
+def ok(v):
+    return ("ok", v)
+
+
+def err(v=None):
+    return ("err", v)
 
 
 def some(v):
@@ -90,6 +136,8 @@ def match_pat(p, v, binds):
         return True
     if k == "ref":
         return match_pat(p["pat"], v, binds)
+    if k == "typed":
+        return match_pat(p["pat"], v, binds)
     if k == "lit":
         return v == p["lit"]["v"] if p["lit"]["t"] != "int" else v == int(p["lit"]["v"])
     if k == "or":
@@ -105,6 +153,8 @@ def match_pat(p, v, binds):
             return v is None
         if isinstance(v, OpVal):
             return v.variant == name
+        if isinstance(v, EnumVal):
+            return v.name == name and not v.args
         raise Unknown("path pattern %s" % p["s"])
     if k == "tuplestruct":
         name = p["path"][-1]
@@ -114,9 +164,28 @@ def match_pat(p, v, binds):
             return isinstance(v, tuple) and v[0] == "ok" and match_pat(p["elems"][0], v[1], binds)
         if name in ("Err",):
             return isinstance(v, tuple) and v[0] == "err"
+        if isinstance(v, EnumVal):
+            if v.name != name:
+                return False
+            if len(v.args) != len(p["elems"]):
+                raise Unknown("arity of pattern %s" % p["s"])
+            return all(match_pat(e, x, binds) for e, x in zip(p["elems"], v.args))
+        if isinstance(v, tuple) and v and v[0] in ("ok", "err", "some"):
+            return False
+        if v is None:
+            return False
         raise Unknown("tuple-struct pattern %s" % p["s"])
     if k == "struct":
         name = p["path"][-1]
+        if isinstance(v, StructVal):
+            if v.tyname != name:
+                return False
+            for f in p["fields"]:
+                if f["name"] not in v:
+                    raise Unknown("field %s not in %s" % (f["name"], name))
+                if not match_pat(f["pat"], v[f["name"]], binds):
+                    return False
+            return True
         if not isinstance(v, OpVal):
             raise Unknown("struct pattern on non-operator")
         if v.variant != name:
@@ -143,6 +212,7 @@ class Evaluator:
         self.ws_keys = []  # whitespace-gap predicate instances used (a, b)
         self.ws_value = True
         self.steps = 0
+        self.opaque_types = {"StamError"}
         self.globals = {}  # integer constants of the crate (name -> value)
         self.globals_used = set()
 
@@ -162,6 +232,8 @@ class Evaluator:
             return int(e["v"])
         if e["t"] == "bool":
             return bool(e["v"])
+        if e["t"] in ("str", "char"):
+            return e["v"]
         raise Unknown("literal type %s" % e["t"])
 
     def e_path(self, e, env):
@@ -179,6 +251,8 @@ class Evaluator:
             raise Unknown("unbound name %s (line %s)" % (p[0], e.get("l")))
         if p[-1] == "None":
             return None
+        if len(p) >= 2 and p[-1][:1].isupper() and p[-2][:1].isupper():
+            return EnumVal(p[-1])
         raise Unknown("path %s" % "::".join(p))
 
     def e_paren(self, e, env):
@@ -195,6 +269,8 @@ class Evaluator:
             if not isinstance(v, bool):
                 raise Unknown("! on non-bool")
             return not v
+        if e["op"] == "-" and isinstance(v, int) and not isinstance(v, bool):
+            return SInt(-int(v))
         raise Unknown("unary %s" % e["op"])
 
     def e_binary(self, e, env):
@@ -225,13 +301,16 @@ class Evaluator:
         if op in ("+", "-", "*"):
             if not (isinstance(l, int) and isinstance(r, int)):
                 raise Unknown("arith on non-int")
+            signed = isinstance(l, SInt) or isinstance(r, SInt)
             if op == "+":
-                return l + r
-            if op == "*":
-                return l * r
-            if l < r:
-                raise Panic("unsigned-underflow", e.get("l"))
-            return l - r
+                v = int(l) + int(r)
+            elif op == "*":
+                v = int(l) * int(r)
+            else:
+                if not signed and l < r:
+                    raise Panic("unsigned-underflow", e.get("l"))
+                v = int(l) - int(r)
+            return SInt(v) if signed else v
         raise Unknown("binary %s" % op)
 
     def _bool(self, v):
@@ -242,6 +321,10 @@ class Evaluator:
     def e_field(self, e, env):
         b = self.eval(e["base"], env)
         if isinstance(b, Interval):
+            if e["member"] in b:
+                return b[e["member"]]
+            raise Unknown("field %s" % e["member"])
+        if isinstance(b, StructVal):
             if e["member"] in b:
                 return b[e["member"]]
             raise Unknown("field %s" % e["member"])
@@ -260,7 +343,47 @@ class Evaluator:
                 return some(self.eval(e["args"][0], env))
             if "call:" + "::".join(f["path"][-2:]) in self.hooks:
                 return self.hooks["call:" + "::".join(f["path"][-2:])](self, None, [self.eval(a, env) for a in e["args"]], e, env)
+            if name == "Ok" and len(e["args"]) == 1:
+                return ok(self.eval(e["args"][0], env))
+            if name == "Err" and len(e["args"]) == 1:
+                return err(self.eval_opaque(e["args"][0], env))
+            if len(f["path"]) >= 2 and name[:1].isupper() and f["path"][-2][:1].isupper():
+                if f["path"][-2] in self.opaque_types:
+                    return EnumVal(name, ())
+                return EnumVal(name, [self.eval(a, env) for a in e["args"]])
         raise Unknown("call %s (line %s)" % (f.get("s", "?"), e.get("l")))
+
+    def eval_opaque(self, e, env):
+        """error payloads and messages are irrelevant: evaluate if possible, else a token"""
+        try:
+            return self.eval(e, env)
+        except Unknown:
+            return "<opaque>"
+
+    def e_try(self, e, env):
+        v = self.eval(e["e"], env)
+        if isinstance(v, tuple) and v and v[0] == "ok":
+            return v[1]
+        if isinstance(v, tuple) and v and v[0] == "err":
+            raise Return(v)
+        if is_some(v):
+            return v[1]
+        if v is None:
+            raise Return(None)
+        raise Unknown("? on %r" % (v,))
+
+    def e_cast(self, e, env):
+        v = self.eval(e["e"], env)
+        if isinstance(v, bool) or not isinstance(v, int):
+            raise Unknown("cast of non-int")
+        ty_ = e["ty"]["s"].replace(" ", "")
+        if ty_ in ("usize", "u32", "u64", "u16", "u8"):
+            if v < 0:
+                raise Panic("negative-to-unsigned-cast", e.get("l"))  # wraps around: always a logic error here
+            return int(v)
+        if ty_ in ("isize", "i32", "i64", "i16", "i8"):
+            return SInt(v)
+        return v
 
     def e_mcall(self, e, env):
         m = e["method"]
@@ -288,8 +411,12 @@ class Evaluator:
                 return len(recv) == 0
             if m == "len":
                 return len(recv)
-        if m in ("clone", "copied", "as_ref", "to_owned"):
+        if m in ("clone", "copied", "as_ref", "to_owned", "deref"):
             return recv
+        if m == "abs" and isinstance(recv, int) and not isinstance(recv, bool):
+            return SInt(abs(int(recv)))
+        if isinstance(recv, StructVal) and not e["args"] and m in recv:
+            return recv[m]  # trivial getter
         raise Unknown("method %s on %s (line %s)" % (m, type(recv).__name__, e.get("l")))
 
     def e_structlit(self, e, env):
@@ -301,7 +428,19 @@ class Evaluator:
             if set(fields) != set(self.opvariants[name]):
                 raise Unknown("struct literal %s does not list all fields" % name)
             return OpVal(name, fields)
-        raise Unknown("struct literal %s" % name)
+        fields = {}
+        for f in e["fields"]:
+            fields[f["name"]] = self.eval(f["e"], env)
+        if e.get("rest") is not None:
+            base = self.eval(e["rest"], env)
+            if isinstance(base, dict):
+                for k_, v_ in base.items():
+                    fields.setdefault(k_, v_)
+        if name == "TextSelection":
+            iv = Interval()
+            iv.update(fields)
+            return iv
+        return StructVal(name, fields)
 
     def e_closure(self, e, env):
         return ("closure", e)
